@@ -279,6 +279,15 @@ func c08Replay(c json.RawMessage) Verdict {
 			return bad("%s", e)
 		}
 	}
+	// table numbers NCBI does not list (withdrawn 7, 8, 15; never assigned 0, 17, 32, 99): whatever GetCodonTable hands
+	// out for them, re-weighting it must not reach the default table of any listed id - the comparison of the fresh
+	// tables below is made after this
+	for _, x := range []int{7, 8, 15, 0, 17, 32, 99} {
+		func() {
+			defer func() { _ = recover() }()
+			_ = codon.GetCodonTable(x).OptimizeTable("ATGAAATTTGGGTGATAGTAACTGCTG")
+		}()
+	}
 	ideal, asbuilt := true, true
 	why := ""
 	for k, exp := range cs.Handles {
